@@ -3,7 +3,7 @@
    C20/Proofs.v.  The statements are about the repaired notifier (readexactly(32) on both
    sides, fix: commits listed in findings.d/C20.txt); `C20_legacy_refuted` records what the
    unrepaired `read(32)` loop did. *)
-From NR Require Import Lib.Base C20.Model C20.Spec C20.Proofs.
+From NR Require Import Lib.Base C20.Model C20.Spec C20.Proofs Gen.Lookup.
 Open Scope list_scope. Open Scope nat_scope.
 
 (* The framed reader (NotifyClient.connect / each NotifyServer.handle_notify): for EVERY
@@ -74,6 +74,33 @@ Theorem C20_client_actions : forall known ids,
 Proof. intros; split; [apply client_actions_lookups | apply client_actions_fanouts]. Qed.
 Print Assumptions C20_client_actions.
 
+(* The receiving worker over time (the store changes; ids arrive; anybody may ask for any id at any moment).
+   Tie: the translator confirms on every run that NotifyClient.connect is "look the id up, fan out when found" and that the
+   look-up of both backends is a read of the store that keeps nothing (so `stored` below is what the code consults). *)
+Theorem C20_lookup_tie :
+  Gen.Lookup.client_loop_ok = true /\ Gen.Lookup.db_lookup_stateless = true /\ Gen.Lookup.kv_lookup_stateless = true.
+Proof. vm_compute. repeat split. Qed.
+Print Assumptions C20_lookup_tie.
+
+(* look-ups have no memory: deleting every look-up that is not an announcement from ANY history leaves the fan-outs unchanged *)
+Theorem C20_lookups_have_no_memory : forall st evs,
+  fanouts (world st evs) = fanouts (world st (filter (fun e => negb (is_probe e)) evs)).
+Proof. intros; apply probes_irrelevant. Qed.
+Print Assumptions C20_lookups_have_no_memory.
+
+(* an event committed before its id is announced and not removed in between is fanned out, in every history around it *)
+Theorem C20_committed_then_announced_is_fanned_out : forall st pre mid post u,
+  ~ In (Remove u) mid ->
+  In u (fanouts (world st (pre ++ Accept u :: mid ++ Announce u :: post))).
+Proof. exact committed_then_announced_is_fanned_out. Qed.
+Print Assumptions C20_committed_then_announced_is_fanned_out.
+
+(* nothing is fanned out that was not announced *)
+Theorem C20_fanned_out_was_announced : forall evs st u,
+  In u (fanouts (world st evs)) -> In (Announce u) evs.
+Proof. exact fanned_out_was_announced. Qed.
+Print Assumptions C20_fanned_out_was_announced.
+
 (* ---------- non-vacuity and the record of the defect ---------- *)
 Definition idA : bytes := map N.of_nat (seq 0 32).
 Definition idB : bytes := map N.of_nat (seq 100 32).
@@ -88,6 +115,11 @@ Proof. vm_compute. repeat split. Qed.
 
 Example C20_reader_example :
   client_run [] [firstn 10 idA; skipn 10 idA ++ firstn 3 idB; skipn 3 idB ++ firstn 7 idA] = ([idA; idB], firstn 7 idA).
+Proof. vm_compute. reflexivity. Qed.
+
+(* asked for before it existed, then committed elsewhere and announced: fanned out; announced but removed meanwhile: not *)
+Example C20_world_example :
+  fanouts (world [] [Probe idA; Accept idA; Probe idB; Announce idA; Accept idB; Remove idB; Announce idB]) = [idA].
 Proof. vm_compute. reflexivity. Qed.
 
 (* F23 (fixed): with read(32) an id delivered as a 10-byte and a 22-byte piece was looked up as two "ids" *)
